@@ -40,7 +40,7 @@ PER_CASE_TIMEOUT = 5.0
 CHUNK = 8
 
 # holds_c01 geometry flavour ops observations: the second argument is `true` for the exclusive publication
-ORACLE_WITH_FLAVOUR = True
+ORACLE_WITH_FLAVOUR = False
 
 MAXI = 2**31 - 1
 MINI = -2**31
